@@ -125,6 +125,7 @@ func extractC10() *lean {
 	}
 	l.def("conflictedFlagReadUnconditional", "Bool", map[bool]string{true: "true", false: "false"}[uncond], uncond)
 	c10More(l)
+	c10Deep(l)
 	return l
 }
 
